@@ -41,10 +41,20 @@ def run_script(D, cn, sc, variant, islinear=0):
     raws, rels, lastres = [], [], None
     idx_of_call = []
     froms = []
+    # calls with the same stop criteria are given the SAME dictionary object, and the same save-time list object when equal,
+    # as a user script does (stop = {'maxit': N} defined once): arguments written to by one call then reach the next one
+    stop_pool, tsave_pool = {}, {}
     for c in sc["calls"]:
         f = S.f0 if not c["cont"] else lastres[-1]
         mons = mon_dict(c["freqs"], variant) if c["freqs"] else None
-        raw, res = S.call(c["op"], f, 1.0, [t / U for t in c["tsave"]], stop_of(c, U), monitors=mons)
+        skey = (c["tot"], c["maxit"])
+        if skey not in stop_pool:
+            stop_pool[skey] = stop_of(c, U)
+        tkey = tuple(c["tsave"])
+        if tkey not in tsave_pool:
+            tsave_pool[tkey] = [t / U for t in c["tsave"]]
+        raw, res = S.call(c["op"], f, 1.0, tsave_pool[tkey], stop_pool[skey], monitors=mons,
+                          intent={"stop": stop_of(c, U), "tsave": [t / U for t in c["tsave"]]})
         raws.append(raw)
         froms.append("last" if c["cont"] else "f0")
         idx_of_call.append(len(raws))
@@ -84,6 +94,21 @@ def run_script(D, cn, sc, variant, islinear=0):
             raws.append(raw)
             rels.append({"type": "split", "a": len(raws), "b": j, "c": j + 1})
     return raws, rels, trace
+
+
+def ctor_monitor_family(D, cn, cn2, prof):
+    """constructor-supplied monitors on several solver objects living in one process: each object records its own solves
+    only, whatever the other objects do afterwards (monitor outputs are re-read at the END of the family)"""
+    A = D.Session(cn, ncell=3, profile=prof, ctor_monitors={"mon": {"type": "residual", "frequency": 2}})
+    rawA, _ = A.call("solve", A.f0, 1.0, [], {"maxit": 4})
+    B = D.Session(cn2, ncell=3, profile=prof)
+    rawB, _ = B.call("solve", B.f0, 1.0, [], {"maxit": 3})
+    C = D.Session(cn, ncell=3, profile=prof, ctor_monitors={"mon": {"type": "residual", "frequency": 3}})
+    rawC, _ = C.call("solve", C.f0, 1.0, [], {"maxit": 6})
+    for S, raw in ((A, rawA), (B, rawB), (C, rawC)):
+        S.refresh_mons(raw)
+    rawA["freqs_arg"], rawB["freqs_arg"], rawC["freqs_arg"] = [2], [], [3]
+    return [rawA, rawB, rawC]
 
 
 def run(tier):
@@ -142,6 +167,16 @@ def run(tier):
                 if len(rep.samples) < 3 and len(sc["calls"]) > 1:
                     rep.sample({"class": cn, "profile": sc["prof"], "script": sc["calls"], "relations": rels,
                                 "observed": [D.describe(r) for r in raws]})
+    # constructor-supplied monitors across solver objects
+    for k, (cn, cn2) in enumerate([("explicit", "rk2"), ("rk4", "explicit"), ("gear", "implicit"), ("lsrk25bb", "rk3ssp"),
+                                    ("cranknicolson", "gear")]):
+        raws = ctor_monitor_family(D, cn, cn2, ["c4", "var"][k % 2])
+        rid += 1
+        calls = D.project(raws, rid)
+        recs.append({"id": rid, "kind": "family", "calls": calls, "rels": []})
+        meta[rid] = ({"kind": D.KIND_OF[cn], "prof": "c4", "t0": 0, "calls": [{"op": "solve(ctor monitors)"}] * 3}, cn,
+                     [D.describe(r) for r in raws])
+        rep.evaluations += len(raws)
     rep.extra["drift_total"] = drift
     from . import driver_trace
     driver_trace.report(rep, traces, wd, lambda tid: "cls=%s script=%s" % (meta[tid][1], json.dumps(meta[tid][0]["calls"])[:300]))
